@@ -162,7 +162,12 @@ def repeat(ctx, d, runs):
                 err = err[:err.index('goroutine ')] + '[stack trace]\n'
             k = (p.returncode, p.stdout.decode('utf-8', 'replace'), err)
         except subprocess.TimeoutExpired:
-            k = ('hang', '', '')
+            try:    # once more with a long limit: the sandbox may be loaded
+                p = subprocess.run([os.path.join(ctx.bin, 'drc'), 'device', 'code/router'], cwd=d, env=env,
+                                   stdout=subprocess.PIPE, stderr=subprocess.PIPE, timeout=600)
+                k = (p.returncode, p.stdout.decode('utf-8', 'replace'), p.stderr.decode('utf-8', 'replace'))
+            except subprocess.TimeoutExpired:
+                k = ('hang', '', '')
         seen[k] = seen.get(k, 0) + 1
     return seen
 
